@@ -335,7 +335,7 @@ def run(ctx):
                 return 1
         return 0
     common.proof_stage(ctx, "CobraModel.Props.C06", extra_scan=["CobraModel/Lemmas/Core.lean", "CobraModel/Lemmas/LP.lean"] + auxcorr.SCAN)
-    directed = aux_stage(ctx)
+    directed = aux_stage(ctx) + common.load_corpus("C06")
     rng = ctx.rng
     n = ctx.scale(200, 4000)
     ran, tries = 0, 0
